@@ -280,8 +280,13 @@ def run(ctx):
     okrec = len(rec_) == 1 and rec_[0][0].name == "update_history" and rec_[0][1].func.attr == "append" and len(rec_[0][1].args) == 1 and canon(rec_[0][1].args[0]) in ("self.state.logZ", "self.log_evidence") and le_ok
     ctx.ob("R-SIB", "C15.4", uh2, "the log Z recorded in the history (the `previous log Z` of log_dZ) is the run's own log-evidence self.state.logZ", okrec, f"{[(m_.name, src(c_)[:80]) for m_, c_ in rec_]}")
     er = prog.cls("nessai.evidence:_INSIntegralState").methods["compute_evidence_ratio"]
-    rvals = sorted(canon(n.value) for n in walk_no_nested(er.node) if isinstance(n, ast.Return))
-    ctx.ob("R-SIB", "C15.4", er, "evidence ratio = log Z(live points) - log Z (or - log Z(nested samples) when ns_only)", rvals == sorted(["self.log_evidence_live_points - self.log_evidence_nested_samples", "self.log_evidence_live_points - self.logZ"]), f"{rvals}")
+    # read from the path summaries: what is returned when ns_only holds and when it does not
+    from ..summ import summarise as _summ15, guard_texts as _gt15
+    rv_ = {}
+    for pa_ in _summ15(er.node):
+        if pa_.end == "return" and pa_.ret is not None:
+            rv_[dict(_gt15(pa_, canon)).get("ns_only")] = canon(pa_.ret)
+    ctx.ob("R-SIB", "C15.4", er, "evidence ratio = log Z(live points) - log Z (or - log Z(nested samples) when ns_only)", rv_ == {True: "self.log_evidence_live_points - self.log_evidence_nested_samples", False: "self.log_evidence_live_points - self.logZ"}, f"{rv_}")
     oer = prog.cls(tables.OS_).methods["compute_evidence_ratio"]
     inl = single_assignments(oer.node)
     rr = [n for n in walk_no_nested(oer.node) if isinstance(n, ast.Return)]
